@@ -415,6 +415,31 @@ def run_case(case, acc):
                                   f"plan={plan!r}"))
             elif e["fd"] not in seen:
                 acc.count("left_out_checked")
+    # ---- the same static table through the other call paths (oneshot block, as_dict) ---------------------
+    if not midscan:
+        def call(fn):
+            try:
+                return ("ok", fn())
+            except Exception as e:  # noqa: BLE001
+                return ("exc", type(e).__name__)
+        with newvk():
+            plain = dict(num_fds=call(pr.num_fds), io_counters=call(pr.io_counters), open_files=call(pr.open_files))
+            pr2 = ps.Process(pid)
+            with pr2.oneshot():
+                pr2.name(), pr2.ppid(), pr2.uids()
+                alt = dict(open_files=call(pr2.open_files), io_counters=call(pr2.io_counters), num_fds=call(pr2.num_fds))
+            viad = call(lambda: ps.Process(pid).as_dict(attrs=list(plain)))
+        for m in plain:
+            acc.count("call_path_comparisons")
+            if alt[m] != plain[m]:
+                viols.append((f"{m}_differs_in_oneshot_block", f"plain {plain[m]!r} vs in oneshot() {alt[m]!r}"[:500]))
+        if viad[0] == "ok":
+            for m in plain:
+                acc.count("call_path_comparisons")
+                if plain[m][0] == "ok" and viad[1].get(m) != plain[m][1]:
+                    viols.append((f"{m}_differs_via_as_dict", f"plain {plain[m]!r} vs as_dict {viad[1].get(m)!r}"[:500]))
+        elif viad[1] not in [r[1] for r in plain.values() if r[0] == "exc"]:
+            viols.append((f"as_dict_exception:{viad[1]}", f"as_dict raised {viad[1]}; plain calls {plain!r}"[:500]))
     acc.case(case, nontrivial(case), viols)
 
 
